@@ -544,7 +544,18 @@ func Run(sc Scenario, seed int64) *Result {
 		r.eagerReconnect(rng)
 		return res
 	}
-	if err := r.connect(); err != nil {
+	var err error
+	{
+		cerr := make(chan error, 1)
+		go func() { cerr <- r.connect() }()
+		select {
+		case err = <-cerr:
+		case <-time.After(r.deadline):
+			r.problem("C06", "connect-never-returns", "Connect did not return: "+shortStacks(sess.LibGoroutines()))
+			return res
+		}
+	}
+	if err != nil {
 		if sc.FailFirst != "" {
 			r.problem("C06", "connect-after-failed-connect", "after a Connect that failed ("+sc.FailFirst+") the next Connect returned "+err.Error())
 			return res
